@@ -934,7 +934,9 @@ class FilePath(AbstractFilePath[AnyStr]):
         ourPath = self._getPathAsSameTypeAs(path)
 
         newpath = abspath(joinpath(ourPath, normpath(path)))
-        if not newpath.startswith(ourPath):
+        sep = _coerceToFilesystemEncoding(path, os.sep)
+        base = ourPath.rstrip(sep)
+        if not (newpath == base or newpath.startswith(base + sep)):
             raise InsecurePath(f"{newpath!r} is not a child of {ourPath!r}")
         return self.clonePath(newpath)
 
